@@ -10,6 +10,8 @@ Open Scope string_scope.
 Open Scope N_scope.
 
 (* ---------- the expression fragment ---------- *)
+Fixpoint pairs_len (l : eplist) : Z := match l with PNil => 0 | PCons _ _ t => 1 + pairs_len t end.
+
 Fixpoint efrag (e : expr) : bool :=
   match e with
   | ENum _ | EBool _ | EStr _ | EVar _ => true
@@ -17,10 +19,16 @@ Fixpoint efrag (e : expr) : bool :=
   | EUn UMinus e1 | EUn UBang e1 => efrag e1
   | EBin _ _ _ l r | EIndex l r => efrag l && efrag r
   | EArr l => efrag_list l
+  | EMap kvs np => Z.eqb np (pairs_len kvs) && efrag_pairs kvs   (* len(Pairs) = len(Order): no key twice *)
+  | ESlice l a b => efrag l && efrag_o a && efrag_o b
   | _ => false
   end
 with efrag_list (l : elist) : bool :=
-  match l with ENil => true | ECons e t => efrag e && efrag_list t end.
+  match l with ENil => true | ECons e t => efrag e && efrag_list t end
+with efrag_pairs (l : eplist) : bool :=
+  match l with PNil => true | PCons _ e t => efrag e && efrag_pairs t end
+with efrag_o (o : oexpr) : bool :=
+  match o with ONoneE => true | OSome e => efrag e end.
 
 
 Definition ofrag (o : oexpr) : bool := match o with ONoneE => true | OSome e => efrag e end.
@@ -432,6 +440,65 @@ with lfrag_slist (l : slist) : bool :=
 with lfrag_clist (l : clist) : bool :=
   match l with CNil => true | CCons c b t => efrag c && lfrag_slist b && lfrag_clist t end.
 
+(* ---------- what the fragment leaves out of the compiler's input ---------- *)
+(* [plain]: no element store `a[i] = e`, and two things the parser never
+   produces: a map literal whose len(Pairs) differs from len(Order) (a key
+   twice: "duplicated map key" is a parse error) and a block as a statement
+   of its own (BlockStatement only occurs as a body).  Every program the
+   compiler accepts and that is plain lies in lfrag (CompileLocProofs.v). *)
+Fixpoint mapok (e : expr) : bool :=
+  match e with
+  | EArr l => mapok_list l
+  | EMap kvs np => Z.eqb np (pairs_len kvs) && mapok_pairs kvs
+  | EUn _ e1 | EGroup e1 => mapok e1
+  | EBin _ _ _ l r | EIndex l r => mapok l && mapok r
+  | ESlice l a b => mapok l && mapok_o a && mapok_o b
+  | _ => true
+  end
+with mapok_list (l : elist) : bool :=
+  match l with ENil => true | ECons e t => mapok e && mapok_list t end
+with mapok_pairs (l : eplist) : bool :=
+  match l with PNil => true | PCons _ e t => mapok e && mapok_pairs t end
+with mapok_o (o : oexpr) : bool :=
+  match o with ONoneE => true | OSome e => mapok e end.
+
+Fixpoint plain_stmt (s : stmt) : bool :=
+  match s with
+  | SDecl _ e => mapok e
+  | SAssign target e => match target with EIndex _ _ => false | _ => true end && mapok e
+  | SIf c b elifs els =>
+      mapok c && plain_slist b && plain_clist elifs && match els with NoElse => true | Else eb => plain_slist eb end
+  | SWhile c b => mapok c && plain_slist b
+  | SForStep _ start stop step b => mapok_o start && mapok stop && mapok_o step && plain_slist b
+  | SForIter _ _ e b => mapok e && plain_slist b
+  | SBlock _ => false
+  | _ => true
+  end
+with plain_slist (l : slist) : bool :=
+  match l with SNil => true | SCons s t => plain_stmt s && plain_slist t end
+with plain_clist (l : clist) : bool :=
+  match l with CNil => true | CCons c b t => mapok c && plain_slist b && plain_clist t end.
+
+(* [wplain]: plain without the restriction on element stores — only the two
+   shapes the parser never produces are excluded.  Every program the compiler
+   accepts and that is wplain lies in the fragment of compile_wf (C17). *)
+Fixpoint wplain_stmt (s : stmt) : bool :=
+  match s with
+  | SDecl _ e => mapok e
+  | SAssign target e => mapok target && mapok e
+  | SIf c b elifs els =>
+      mapok c && wplain_slist b && wplain_clist elifs && match els with NoElse => true | Else eb => wplain_slist eb end
+  | SWhile c b => mapok c && wplain_slist b
+  | SForStep _ start stop step b => mapok_o start && mapok stop && mapok_o step && wplain_slist b
+  | SForIter _ _ e b => mapok e && wplain_slist b
+  | SBlock _ => false
+  | _ => true
+  end
+with wplain_slist (l : slist) : bool :=
+  match l with SNil => true | SCons s t => wplain_stmt s && wplain_slist t end
+with wplain_clist (l : clist) : bool :=
+  match l with CNil => true | CCons c b t => mapok c && wplain_slist b && wplain_clist t end.
+
 (* a whole program: the fragment, and no break outside a loop *)
 Definition lpfrag (p : slist) : bool := lfrag_slist p && nb_slist p.
 
@@ -460,7 +527,12 @@ Fixpoint dedup (l : list str) (seen : list str) : list str :=
 
 (* (exec fuel (stmt…)) ↦ (outside) — not in psfrag
                         | (undefined) — out of fuel or a run-time error (eval_expr / a zero step undefined)
-                        | (globals ("name" value)…) — the final environment *)
+                        | (globals ("name" value)…) — the final environment
+   (lexec fuel (stmt…)): the same for the scoped semantics lx_l on lpfrag, from
+   the environment [[]]; the names are looked up in the final environment
+   (its only frame left is the globals: a result with another number of
+   frames is reported as (frames n))
+   (shape (stmt…)) ↦ (shape wplain nb plain lfrag) *)
 Definition exec_case (x : sx) : sx :=
   match x with
   | Lst [Sym t; Int fuel; Lst stmts] =>
@@ -478,6 +550,32 @@ Definition exec_case (x : sx) : sx :=
                                              end) (dedup (names_slist p) []))
                  | _ => Lst [Sym (s_ "undefined")]
                  end
+        end
+      else if str_eqb t (s_ "lexec") then
+        match dec_program 400 stmts with
+        | None => Sym (s_ "decode-error")
+        | Some p =>
+            if negb (lpfrag p) then Lst [Sym (s_ "outside")]
+            else match lx_l (Z.to_nat fuel) p [[]] with
+                 | Some ([g], false) =>
+                     Lst (Sym (s_ "globals") ::
+                          flat_map (fun n => match alook n g with
+                                             | Some v => [Lst [Str n; enc_value 50 v]]
+                                             | None => []
+                                             end) (dedup (names_slist p) []))
+                 | Some (env, false) => Lst [Sym (s_ "frames"); Int (Z.of_nat (List.length env))]
+                 | _ => Lst [Sym (s_ "undefined")]
+                 end
+        end
+      else Sym (s_ "decode-error")
+  | Lst [Sym t; Lst stmts] =>
+      (* (shape (stmt…)) ↦ (shape wplain nb plain lfrag): the side conditions of the whole-program theorems *)
+      if str_eqb t (s_ "shape") then
+        match dec_program 400 stmts with
+        | None => Sym (s_ "decode-error")
+        | Some p =>
+            let b (x : bool) := Sym (if x then s_ "t" else s_ "f") in
+            Lst [Sym (s_ "shape"); b (wplain_slist p); b (nb_slist p); b (plain_slist p); b (lfrag_slist p)]
         end
       else Sym (s_ "decode-error")
   | _ => Sym (s_ "decode-error")
